@@ -11,6 +11,7 @@ import HealSparse.Model.Moc
 import HealSparse.Model.SubMap
 import HealSparse.Model.ApiFiles
 import HealSparse.Model.ApiHealpix
+import HealSparse.Model.Randoms
 import HealSparse.Model.Text
 namespace HS
 
@@ -443,6 +444,42 @@ def stepArgs (w : World) (op : String) (a : Args) : World × String :=
        | .error e => (w, errLine e))
     | none, _ => (w, "bad-op:no-such-map")
     | _, _ => (w, "bad-op:hpxread")
+  | "rand" =>
+    -- random points: the draws, validity flags and geometry are recorded from the real run;
+    -- the model recomputes what the bookkeeping / arithmetic must produce from them
+    let n := (a.nat? "n").getD 0
+    if a.getD "gen" "uniform" == "fast" then
+      match parseNats (a.getD "vp" "_"), parseNats (a.getD "choice" "_"), parseNats (a.getD "sub" "_"),
+            a.nat? "shift" with
+      | some vp, some ch, some sub, some sh =>
+        let ok := ch.all (fun p => vp.contains p) && sub.all (· < 2 ^ sh) && ch.length == n && sub.length == n
+        if !ok then (w, "draws-out-of-range")
+        else (w, s!"len={n} valid=1 det=1 starved=0 child={showNats (List.zipWith (fastChild sh) ch sub)}")
+      | _, _, _, _ => (w, "bad-op:rand-fast")
+    else
+      let batches : List (List (Nat × Bool)) :=
+        let bs := (a.getD "batches" "").splitOn ";" |>.filter (· != "")
+        let rec go (bs : List String) (off : Nat) : List (List (Nat × Bool)) :=
+          match bs with
+          | [] => []
+          | b :: rest =>
+            let l := b.toList
+            (l.zipIdx.map fun (ch, i) => (off + i, ch == '1')) :: go rest (off + l.length)
+        go bs 0
+      let parseIvs (t : String) : Option (List (Int × Int)) :=
+        (splitList t).mapM fun r => match r.splitOn ":" with
+          | [x, y] => do let x ← x.toInt?; let y ← y.toInt?; pure (x, y)
+          | _ => none
+      match parseIvs (a.getD "ivs" "_"), parseIvs (a.getD "rot" "_"), (a.get? "T").bind String.toInt?,
+            (a.get? "thr").bind String.toInt? with
+      | some ivs, some rot, some T, some thr =>
+        let (_, win) := chooseWindow T thr ivs rot
+        let sel := match rejectionLoop n batches with
+          | some l => showNats l
+          | none => "none"
+        let wtxt := if a.flag "nowin" then "na" else s!"{win.1}:{win.2}"
+        (w, s!"len={n} valid=1 det=1 starved=0 win={wtxt} sel={sel}")
+      | _, _, _, _ => (w, "bad-op:rand-uniform")
   | "vals" => withMap w a fun m => (w, showVals ((List.range m.npix).map m.abs))
   | "get" => withMap w a fun m =>
     let pix? : Option (List Nat) :=
